@@ -16,6 +16,20 @@ families.  The code as found (`Variant.current`) FAILS them: the refuting witnes
 `example`s at the end (defects D6, D7, D8 of DESIGN.md section 6).  `rows_are_asis_then_members`
 holds for both variants and for every run id.
 
+The property does not restrict scenario names, and `Variant.fixed` FAILS on names outside `Clean`
+(`trial (1/1)`, `As-Is baseline`, `Best Solution`: refuting `example`s below).  Round 3 therefore adds
+  * section "the repaired code (`Variant.anchored`)": labels, file name, set id, JSON set name for EVERY
+    scenario name / run id, no `Clean` (`labels_unique_all`, `name_independent_of_key_all`,
+    `run_files_differ_all`, `run_files_differ_keys_all`, `setName_total_all`,
+    `jsonSetName_same_for_all_keys_all`);
+  * section "the D6-D8 code on every scenario name": what `Variant.fixed` does EXACTLY, so that what the
+    round-3 repair changes is stated exactly (`name_same_for_all_keys_fixed_all`: key independence never
+    needed `Clean`; `labels_unique_iff`, `labels_unique_iff_one`: labels are unique iff the name holds
+    neither `As-Is` nor `(1/1)`; `run_files_differ_iff`: runs write different files iff the blank-free
+    name followed by `(` does not hold `Solution(`);
+  * section "Detail level": detail file names never collide with each other or with a summary file, and
+    R runs leave R distinct summary files (`one_file_per_run`), for every scenario name.
+
 Every `theorem` in this file is audited by `./check C12` (`#print axioms`).
 -/
 namespace Crem.C12
@@ -118,6 +132,319 @@ theorem file_names_of_runs_differ (name : Str) (r₁ r₂ R : Nat) (hR : R > 1) 
       natStr r₂ ++ '_' :: (['o', 'f', '_'] ++ natStr R ++ [')']) := by simpa [sUOf] using h2
   exact natStr_inj (append_cons_unique ((digits_natStr r₁).not_mem (by decide))
     ((digits_natStr r₂).not_mem (by decide)) h3).1
+
+/-! ## the repaired code (`Variant.anchored`): every scenario name -/
+
+/-- `trial (1/1)`, `As-Is baseline`, `Best Solution`: names the clean alphabet excludes -/
+def exTrial : Str := "trial (1/1)".toList
+def exAsIsBase : Str := "As-Is baseline".toList
+def exBestSol : Str := "Best Solution".toList
+
+example : ¬ Clean exTrial ∧ ¬ Clean exAsIsBase ∧ ¬ Clean exBestSol := by decide
+
+/-- the as-is row is labelled `As-Is`, whatever the run id holds -/
+theorem label_asIs_all (rid : Str) (f : Family) : labelAnchored (asIsKey .anchored f rid) = sAsIs :=
+  label_asIs_anchored f rid
+
+example : labelAnchored (asIsKey .anchored .multi (runId exAsIsBase 1 1)) = sAsIs ∧
+    labelAnchored (asIsKey .anchored .single (runId exTrial 1 1)) = sAsIs := by decide
+
+/-- solution k of n is labelled `k-of-n` (`Optimised` for the only solution), whatever the run id holds -/
+theorem label_member_all (rid : Str) (k n : Nat) :
+    labelAnchored (memberKey rid k n) = if k = 1 ∧ n = 1 then sOptimised else natStr k ++ sOf ++ natStr n :=
+  label_member_anchored rid k n
+
+example : labelAnchored (memberKey (runId exAsIsBase 2 3) 2 3) = "2-of-3".toList ∧
+    labelAnchored (memberKey (runId exTrial 1 1) 1 1) = sOptimised := by decide
+
+/-- Row labels are unique within one summary, for EVERY run id (hence every scenario name). -/
+theorem labels_unique_all (rid : Str) (n : Nat) (f : Family) :
+    ((keys .anchored f rid n).map labelAnchored).Nodup :=
+  labels_nodup_of_spec labelAnchored .anchored f rid n (label_asIs_anchored f rid) (label_member_anchored rid)
+
+example : (keys .anchored .single (runId exTrial 1 1) 1).map labelAnchored = [sAsIs, sOptimised] := by decide
+example : (keys .anchored .multi (runId exAsIsBase 2 3) 3).map labelAnchored =
+    [sAsIs, "1-of-3".toList, "2-of-3".toList, "3-of-3".toList] := by decide
+
+/-- Whichever key of the summary map is yielded, the summary's file name and its id are the stated
+functions of (scenario name, run number, number of runs, output type) - for EVERY scenario name. -/
+theorem name_independent_of_key_all (name : Str) (r R n : Nat) (f : Family) (ot : OutputType)
+    (key : Str) (hk : key ∈ keys .anchored f (runId name r R) n) :
+    summaryFileNameV .anchored ot key = intendedFileNameA ot name r R ∧
+    setIdV .anchored key = intendedSetId name r R := by
+  obtain ⟨T, hT, rfl⟩ := anchored_key_shape hk
+  refine ⟨?_, ?_⟩
+  · simp only [summaryFileNameV, fileSafeIdV, intendedFileNameA]
+    rw [fileSafeIdA_keyOf _ hT, rid_fileStemA]
+  · simp only [setIdV, intendedSetId]
+    exact setIdA_keyOf _ hT
+
+example : (keys .anchored .multi (runId exBestSol 2 3) 2).map
+      (fun k => (summaryFileNameV .anchored .csv k, setIdV .anchored k)) =
+    List.replicate 3 ("BestSolution(2_of_3)-Summary.csv".toList, "Best Solution (2/3) Summary".toList) := by decide
+/-- a `/` of the name becomes `_of_` -/
+example : intendedFileNameA .json "a/b c".toList 2 3 = "a_of_bc(2_of_3)-Summary.json".toList := by decide
+
+/-- different runs of one scenario are meant to write different files, for every scenario name -/
+theorem run_files_differ_all (name : Str) (r₁ r₂ R : Nat) (hR : R > 1) (ot : OutputType)
+    (h : intendedFileNameA ot name r₁ R = intendedFileNameA ot name r₂ R) : r₁ = r₂ := by
+  unfold intendedFileNameA at h
+  exact runFileStemA_inj name hR (List.append_cancel_right (List.append_cancel_right h))
+
+example : intendedFileNameA .csv exBestSol 1 3 ≠ intendedFileNameA .csv exBestSol 2 3 := by decide
+
+/-- and they do: whichever keys the two maps yield, the summary files of two runs of one scenario differ -/
+theorem run_files_differ_keys_all (name : Str) (r₁ r₂ R : Nat) (hR : R > 1) (hr : r₁ ≠ r₂)
+    (n₁ n₂ : Nat) (f₁ f₂ : Family) (ot : OutputType) (k₁ k₂ : Str)
+    (h₁ : k₁ ∈ keys .anchored f₁ (runId name r₁ R) n₁) (h₂ : k₂ ∈ keys .anchored f₂ (runId name r₂ R) n₂) :
+    summaryFileNameV .anchored ot k₁ ≠ summaryFileNameV .anchored ot k₂ := by
+  rw [(name_independent_of_key_all name r₁ R n₁ f₁ ot k₁ h₁).1,
+    (name_independent_of_key_all name r₂ R n₂ f₂ ot k₂ h₂).1]
+  exact fun h => hr (run_files_differ_all name r₁ r₂ R hR ot h)
+
+example : (List.range 3).map (fun i => summaryFileNameV .anchored .csv (memberKey (runId exBestSol (i + 1) 3) 1 1)) =
+    ["BestSolution(1_of_3)-Summary.csv".toList, "BestSolution(2_of_3)-Summary.csv".toList,
+     "BestSolution(3_of_3)-Summary.csv".toList] := by decide
+
+/-- No key makes the JSON set-name derivation fail, for EVERY run id (newlines in the scenario name included;
+the function is the same in all variants). -/
+theorem setName_total_all (rid : Str) (n : Nat) (f : Family)
+    (key : Str) (hk : key ∈ keys .anchored f rid n) : (jsonSetNameOfKey key).isSome = true := by
+  obtain ⟨T, hT, rfl⟩ := anchored_key_shape hk
+  rw [jsonSetName_keyOf_all rid hT]
+  cases (initLines rid).findSome? (beforeLast patSpSol) <;> rfl
+
+/-- Whichever key of the summary map is yielded, the JSON set name is the same, for EVERY run id. -/
+theorem jsonSetName_same_for_all_keys_all (rid : Str) (n : Nat) (f : Family)
+    (k₁ k₂ : Str) (h₁ : k₁ ∈ keys .anchored f rid n) (h₂ : k₂ ∈ keys .anchored f rid n) :
+    jsonSetNameOfKey k₁ = jsonSetNameOfKey k₂ := by
+  obtain ⟨T₁, hT₁, rfl⟩ := anchored_key_shape h₁
+  obtain ⟨T₂, hT₂, rfl⟩ := anchored_key_shape h₂
+  rw [jsonSetName_keyOf_all rid hT₁, jsonSetName_keyOf_all rid hT₂]
+
+/-- and it is the run id itself when that has no newline -/
+theorem jsonSetName_is_run_id (rid : Str) (hr : '\n' ∉ rid) (n : Nat) (f : Family)
+    (key : Str) (hk : key ∈ keys .anchored f rid n) : jsonSetNameOfKey key = some rid := by
+  obtain ⟨T, hT, rfl⟩ := anchored_key_shape hk
+  exact jsonSetName_keyOf hr hT
+
+example : (keys .anchored .multi (runId exBestSol 2 3) 2).map jsonSetNameOfKey =
+    List.replicate 3 (some "Best Solution (2/3)".toList) := by decide
+/-- a newline in the name: the set name is the run id's last line for every key -/
+example : (keys .anchored .multi (runId "a\nb".toList 2 3) 2).map jsonSetNameOfKey =
+    List.replicate 3 (some "b (2/3)".toList) := by decide
+/-- a newline after a ` Solution`: the set name comes from that earlier line, for every key -/
+example : (keys .anchored .multi (runId "x Solution y\nb".toList 2 3) 2).map jsonSetNameOfKey =
+    List.replicate 3 (some "x".toList) := by decide
+
+/-! ### the D6-D8 code (`Variant.fixed`) fails on such names; the anchored code does not -/
+
+/-- `trial (1/1)`, one run, one optimised solution: under `.fixed` both rows are `Optimised` -/
+example : (keys .fixed .single (runId exTrial 1 1) 1).map labelFixed = [sOptimised, sOptimised] := by decide
+example : ¬ ((keys .fixed .single (runId exTrial 1 1) 1).map labelFixed).Nodup := by decide
+example : (keys .anchored .single (runId exTrial 1 1) 1).map labelAnchored = [sAsIs, sOptimised] := by decide
+
+/-- `As-Is baseline`, a set of three: under `.fixed` every row is `As-Is` -/
+example : (keys .fixed .multi (runId exAsIsBase 1 1) 3).map labelFixed = List.replicate 4 sAsIs := by decide
+example : ¬ ((keys .fixed .multi (runId exAsIsBase 1 1) 3).map labelFixed).Nodup := by decide
+example : (keys .anchored .multi (runId exAsIsBase 1 1) 3).map labelAnchored =
+    [sAsIs, "1-of-3".toList, "2-of-3".toList, "3-of-3".toList] := by decide
+
+/-- `Best Solution`, three runs: under `.fixed` every run writes `Best-Summary.csv` (each overwrites the last) -/
+example : (List.range 3).map (fun i => summaryFileName .csv (memberKey (runId exBestSol (i + 1) 3) 1 1)) =
+    List.replicate 3 "Best-Summary.csv".toList := by decide
+example : (List.range 3).map (fun i => summaryFileNameV .anchored .csv (memberKey (runId exBestSol (i + 1) 3) 1 1)) =
+    ["BestSolution(1_of_3)-Summary.csv".toList, "BestSolution(2_of_3)-Summary.csv".toList,
+     "BestSolution(3_of_3)-Summary.csv".toList] := by decide
+/-- and the set id loses the run under `.fixed` -/
+example : setIdOfKey (memberKey (runId exBestSol 2 3) 1 1) = "Best Summary".toList ∧
+    setIdV .anchored (memberKey (runId exBestSol 2 3) 1 1) = "Best Solution (2/3) Summary".toList := by decide
+
+/-! ## the D6-D8 code (`Variant.fixed`) on every scenario name: what exactly the round-3 repair changes -/
+
+/-- Under the D6-D8 code too, whichever key of the summary map is yielded, file name, set id and JSON
+set name are the same - for EVERY run id (`name_same_for_all_keys` without `Clean`).  What `Clean` buys
+is only that they are the INTENDED ones (`name_independent_of_key`). -/
+theorem name_same_for_all_keys_fixed_all (rid : Str) (n : Nat) (f : Family) (ot : OutputType)
+    (k₁ k₂ : Str) (h₁ : k₁ ∈ keys .fixed f rid n) (h₂ : k₂ ∈ keys .fixed f rid n) :
+    summaryFileName ot k₁ = summaryFileName ot k₂ ∧ setIdOfKey k₁ = setIdOfKey k₂ ∧
+      jsonSetNameOfKey k₁ = jsonSetNameOfKey k₂ := by
+  obtain ⟨T₁, hT₁, rfl⟩ := fixed_key_shape h₁
+  obtain ⟨T₂, hT₂, rfl⟩ := fixed_key_shape h₂
+  refine ⟨?_, ?_, ?_⟩
+  · unfold summaryFileName
+    rw [fileSafeId_keyOf_all rid hT₁, fileSafeId_keyOf_all rid hT₂]
+  · rw [setId_keyOf_all rid hT₁, setId_keyOf_all rid hT₂]
+  · rw [jsonSetName_keyOf_all rid hT₁, jsonSetName_keyOf_all rid hT₂]
+
+/-- `setName_total` without `Clean` -/
+theorem setName_total_fixed_all (rid : Str) (n : Nat) (f : Family)
+    (key : Str) (hk : key ∈ keys .fixed f rid n) : (jsonSetNameOfKey key).isSome = true := by
+  have e : keys .fixed f rid n = keys .anchored f rid n := by cases f <;> rfl
+  exact setName_total_all rid n f key (e ▸ hk)
+
+example : (keys .fixed .multi (runId exBestSol 2 3) 2).map
+      (fun k => (summaryFileName .csv k, setIdOfKey k, jsonSetNameOfKey k)) =
+    List.replicate 3 ("Best-Summary.csv".toList, "Best Summary".toList, some "Best Solution (2/3)".toList) := by decide
+example : (keys .fixed .multi (runId "a (b)\nSolution (c) d\ne".toList 2 3) 2).map
+      (fun k => (summaryFileName .csv k, setIdOfKey k)) =
+    List.replicate 3 ("a(b)\nd\ne(2_of_3)-Summary.csv".toList, "a (b)\nSummary d\ne (2/3) Summary".toList) := by decide
+
+/-- EXACTLY when the D6-D8 code labels the rows of a solution set (two or more members) uniquely:
+the run id holds neither `As-Is` nor `(1/1)`. -/
+theorem labels_unique_iff_rid (rid : Str) (n : Nat) (hn : n ≥ 2) :
+    ((keys .fixed .multi rid n).map labelFixed).Nodup ↔
+      (contains sAsIs rid = false ∧ contains sOneOfOne rid = false) := by
+  constructor
+  · intro h
+    obtain ⟨m, rfl⟩ : ∃ m, n = m + 2 := ⟨n - 2, by omega⟩
+    obtain ⟨rest, e⟩ := keys_multi_succ_succ .fixed rid m
+    rw [e] at h
+    simp only [List.map_cons, List.nodup_cons, List.mem_cons, not_or] at h
+    have h01 := h.1.1
+    have h02 := h.1.2.1
+    rw [label_asIs_fixed_any, label_member_fixed_any] at h01 h02
+    rcases Bool.eq_false_or_eq_true (contains sOneOfOne rid) with h1 | h1
+    · simp [h1] at h01
+    · rcases Bool.eq_false_or_eq_true (contains sAsIs rid) with h2 | h2
+      · simp [h1, h2] at h02
+      · exact ⟨h2, h1⟩
+  · rintro ⟨h2, h1⟩
+    apply labels_nodup_of_spec labelFixed .fixed .multi rid n
+    · rw [label_asIs_fixed_any]; simp [h1]
+    · intro k m
+      rw [label_member_fixed_any]; simp [h1, h2]
+
+/-- the same in terms of the scenario name: the run's own ` (r/R)` never matters -/
+theorem labels_unique_iff (name : Str) (r R n : Nat) (hn : n ≥ 2) :
+    ((keys .fixed .multi (runId name r R) n).map labelFixed).Nodup ↔
+      (contains sAsIs name = false ∧ contains sOneOfOne name = false) := by
+  rw [labels_unique_iff_rid _ n hn, contains_asIs_runId, contains_oneOfOne_runId]
+
+/-- with a single member (`single`, or a set of one) the rows are `As-Is`, `Optimised`: unique EXACTLY when
+the name does not hold `(1/1)` (an `As-Is` in the name does no harm there) -/
+theorem labels_unique_iff_one (name : Str) (r R n : Nat) (f : Family) (h : f = .single ∨ n = 1) :
+    ((keys .fixed f (runId name r R) n).map labelFixed).Nodup ↔ contains sOneOfOne name = false := by
+  have e : keys .fixed f (runId name r R) n =
+      [asIsKey .fixed f (runId name r R), memberKey (runId name r R) 1 1] := by
+    rcases h with rfl | rfl
+    · rfl
+    · cases f <;> rfl
+  rw [e]
+  simp only [List.map_cons, List.map_nil, List.nodup_cons, List.mem_singleton, List.not_mem_nil,
+    not_false_eq_true, List.nodup_nil, and_true]
+  rw [label_asIs_fixed_any, label_member_fixed_any, contains_oneOfOne_runId]
+  rcases Bool.eq_false_or_eq_true (contains sOneOfOne name) with h1 | h1
+  · simp [h1]
+  · simp [h1]; decide
+
+example : ¬ ((keys .fixed .multi (runId exAsIsBase 1 1) 2).map labelFixed).Nodup := by decide
+example : ((keys .fixed .multi (runId exBestSol 2 3) 2).map labelFixed).Nodup := by decide
+example : ((keys .fixed .multi (runId exAsIsBase 1 1) 1).map labelFixed).Nodup := by decide
+example : ¬ ((keys .fixed .single (runId exTrial 1 1) 1).map labelFixed).Nodup := by decide
+/-- a set of no members has the as-is row only -/
+example (rid : Str) : ((keys .fixed .multi rid 0).map labelFixed).Nodup := by simp [keys, memberKeys]
+
+/-- EXACTLY when the D6-D8 code gives two different runs of one scenario different summary files, whichever
+keys the two maps yield: the last line of the blank-free scenario name, followed by `(`, does not hold
+`Solution(` (for a name without newline: `run_files_differ_iff`).  Otherwise the greedy replacement starts
+inside the name and swallows the run's own `(r/R)`: all R runs write one file. -/
+theorem run_files_differ_iff_lines (name : Str) (r₁ r₂ R : Nat) (hR : R > 1) (hr : r₁ ≠ r₂)
+    (n₁ n₂ : Nat) (f₁ f₂ : Family) (ot : OutputType) (k₁ k₂ : Str)
+    (h₁ : k₁ ∈ keys .fixed f₁ (runId name r₁ R) n₁) (h₂ : k₂ ∈ keys .fixed f₂ (runId name r₂ R) n₂) :
+    summaryFileName ot k₁ ≠ summaryFileName ot k₂ ↔
+      contains patSolOpen ((splitLines (stripSpaces name)).getLast?.getD [] ++ ['(']) = false := by
+  obtain ⟨T₁, hT₁, rfl⟩ := fixed_key_shape h₁
+  obtain ⟨T₂, hT₂, rfl⟩ := fixed_key_shape h₂
+  change _ ↔ contains patSolOpen (lastLine (stripSpaces name) ++ ['(']) = false
+  rw [← fileSafeId_fixed_runs_differ_iff name hR hr hT₁ hT₂]
+  unfold summaryFileName
+  simp only [List.append_assoc, ne_eq, List.append_cancel_right_eq]
+
+/-- for a scenario name without newline: the blank-free name followed by `(` does not hold `Solution(`,
+i.e. the name with its blanks removed neither holds `Solution(` nor ends in `Solution` -/
+theorem run_files_differ_iff (name : Str) (hnl : '\n' ∉ name) (r₁ r₂ R : Nat) (hR : R > 1) (hr : r₁ ≠ r₂)
+    (n₁ n₂ : Nat) (f₁ f₂ : Family) (ot : OutputType) (k₁ k₂ : Str)
+    (h₁ : k₁ ∈ keys .fixed f₁ (runId name r₁ R) n₁) (h₂ : k₂ ∈ keys .fixed f₂ (runId name r₂ R) n₂) :
+    summaryFileName ot k₁ ≠ summaryFileName ot k₂ ↔
+      contains patSolOpen (stripSpaces name ++ ['(']) = false := by
+  rw [run_files_differ_iff_lines name r₁ r₂ R hR hr n₁ n₂ f₁ f₂ ot k₁ k₂ h₁ h₂,
+    splitLines_of_no_newline (fun h => hnl (mem_stripSpaces h))]
+  rfl
+
+/-- `Best Solution`, `Sol ution`, `x Solution(`: collide; `Solution x`, `Solutio`: do not -/
+example : ["Best Solution", "Sol ution", "x Solution(", "Solution x", "Solutio"].map (fun nm =>
+      (decide (summaryFileName .csv (memberKey (runId nm.toList 1 2) 1 1) ≠
+          summaryFileName .csv (asIsKey .fixed .multi (runId nm.toList 2 2))),
+       contains patSolOpen (stripSpaces nm.toList ++ ['(']) == false)) =
+    [(false, false), (false, false), (false, false), (true, true), (true, true)] := by decide
+/-- with a newline only the last line of the name counts -/
+example : ["Solution\nb", "a\nSolution"].map (fun nm =>
+      (decide (summaryFileName .csv (memberKey (runId nm.toList 1 2) 1 1) ≠
+          summaryFileName .csv (asIsKey .fixed .multi (runId nm.toList 2 2))),
+       contains patSolOpen ((splitLines (stripSpaces nm.toList)).getLast?.getD [] ++ ['(']) == false)) =
+    [(true, true), (false, false)] := by decide
+
+/-! ## Detail level: the detail files (`OutputLevel = Detail`), and one summary file per run -/
+
+/-- the detail files of one solution have different names -/
+theorem detail_names_nodup (ot : OutputType) (id : Str) : (detailFileNames ot id).Nodup :=
+  detailFileNames_nodup ot id
+
+/-- two different solutions of one run (as-is included) never share a detail file name, for EVERY run id -/
+theorem detail_names_of_one_run_disjoint (rid : Str) (n : Nat) (f : Family) (ot₁ ot₂ : OutputType)
+    (k₁ k₂ : Str) (h₁ : k₁ ∈ keys .anchored f rid n) (h₂ : k₂ ∈ keys .anchored f rid n) (hne : k₁ ≠ k₂) :
+    ∀ x ∈ detailFileNames ot₁ k₁, x ∉ detailFileNames ot₂ k₂ :=
+  fun x hx₁ hx₂ => detail_disjoint_same_run h₁ h₂ hne ot₁ ot₂ x hx₁ hx₂
+
+/-- nor do solutions of two different runs of one scenario, for EVERY scenario name -/
+theorem detail_names_of_two_runs_disjoint (name : Str) (r₁ r₂ R : Nat) (hR : R > 1) (hr : r₁ ≠ r₂)
+    (n₁ n₂ : Nat) (f₁ f₂ : Family) (ot₁ ot₂ : OutputType) (k₁ k₂ : Str)
+    (h₁ : k₁ ∈ keys .anchored f₁ (runId name r₁ R) n₁) (h₂ : k₂ ∈ keys .anchored f₂ (runId name r₂ R) n₂) :
+    ∀ x ∈ detailFileNames ot₁ k₁, x ∉ detailFileNames ot₂ k₂ :=
+  fun x hx₁ hx₂ => detail_disjoint_two_runs name hR hr h₁ h₂ ot₁ ot₂ x hx₁ hx₂
+
+/-- and no detail file has the name of a summary file - of any run, scenario, variant or output type
+(a summary name ends in `-Summary.<ext>`, a detail name in `)-ManagementActions.csv`,
+`)-NameMappedVariables.csv` or `).json`: the solution id keeps its closing `)`) -/
+theorem detail_name_is_no_summary_name (rid : Str) (n : Nat) (f : Family) (ot : OutputType)
+    (key : Str) (hk : key ∈ keys .anchored f rid n) (v : Variant) (ot' : OutputType) (key' : Str) :
+    summaryFileNameV v ot' key' ∉ detailFileNames ot key := by
+  obtain ⟨T, hT, rfl⟩ := anchored_key_shape hk
+  exact detail_ne_summary (solutionFileSafeId_keyOf rid hT) _ ot'
+
+example : (keys .anchored .multi (runId exBestSol 2 3) 1).map (detailFileNames .csv) =
+    [["BestSolution(2_of_3)Solution(As-Is)-ManagementActions.csv".toList,
+      "BestSolution(2_of_3)Solution(As-Is)-NameMappedVariables.csv".toList],
+     ["BestSolution(2_of_3)Solution(1_of_1)-ManagementActions.csv".toList,
+      "BestSolution(2_of_3)Solution(1_of_1)-NameMappedVariables.csv".toList]] := by decide
+example : detailFileNames .json (memberKey (runId exTrial 1 1) 1 1) =
+    ["trial(1_of_1)Solution(1_of_1).json".toList] := by decide
+
+/-- R finished runs of one scenario leave exactly R distinct summary files, whichever key each run's map
+yields, whatever family and set size each run has - for EVERY scenario name. -/
+theorem one_file_per_run (name : Str) (R : Nat) (ot : OutputType) (f : Nat → Family) (n : Nat → Nat)
+    (key : Nat → Str) (hkey : ∀ i < R, key i ∈ keys .anchored (f i) (runId name (i + 1) R) (n i)) :
+    ((List.range R).map (fun i => summaryFileNameV .anchored ot (key i))).Nodup ∧
+      ((List.range R).map (fun i => summaryFileNameV .anchored ot (key i))).length = R := by
+  refine ⟨?_, by simp⟩
+  rw [List.Nodup, List.pairwise_map]
+  refine List.Pairwise.imp_of_mem ?_ (List.nodup_range (n := R))
+  intro i j hi hj hij heq
+  have hi' := List.mem_range.mp hi
+  have hj' := List.mem_range.mp hj
+  rw [(name_independent_of_key_all name (i + 1) R (n i) (f i) ot (key i) (hkey i hi')).1,
+    (name_independent_of_key_all name (j + 1) R (n j) (f j) ot (key j) (hkey j hj')).1] at heq
+  have := run_files_differ_all name (i + 1) (j + 1) R (by omega) ot heq
+  omega
+
+example : (List.range 3).map (fun i => summaryFileNameV .anchored .json
+      (asIsKey .anchored .multi (runId exBestSol (i + 1) 3))) =
+    ["BestSolution(1_of_3)-Summary.json".toList, "BestSolution(2_of_3)-Summary.json".toList,
+     "BestSolution(3_of_3)-Summary.json".toList] := by decide
+/-- under the D6-D8 code the three runs of `Best Solution` leave ONE file -/
+example : ((List.range 3).map (fun i => summaryFileName .json
+      (asIsKey .fixed .multi (runId exBestSol (i + 1) 3)))).eraseDups.length = 1 := by decide
 
 /-! ## rows -/
 
